@@ -5,6 +5,7 @@ import (
 	"sort"
 	"strings"
 	"sync"
+	"time"
 
 	"apdsim/plan"
 
@@ -21,6 +22,12 @@ const DefaultTraps = uint32(apd.DefaultTraps)
 const (
 	soloOpCap  = 3_000_000
 	soloRunCap = 12_000_000
+	// the race build pays some microseconds per yield: the concurrent workload
+	// has its own, smaller caps — per operation, and for all tasks of a run
+	// together — so that the most expensive run stays far below the driver's
+	// no-progress watchdog even on a loaded machine
+	c18OpCap  = 1_000_000
+	c18RunCap = 4_000_000
 )
 
 var c18Ctx3 = []string{"Add", "Sub", "Mul", "Quo", "QuoInteger", "Rem", "Pow", "Cmp"}
@@ -448,7 +455,9 @@ func runC18(p *plan.Plan, keepLog bool, soloOnly bool) (*plan.Result, *C18Stats)
 		wasUnwound := peekUnwound()
 		setMode(modeCount)
 		sRecordHot = true
-		defer func() { sRecordHot = false; setMode(modeOff) }()
+		defer func() { sRecordHot = false; setMode(modeOff); setWallCap(0) }()
+		var total uint64
+		soloStart := time.Now()
 		for ti := range p.Tasks {
 			tk := &p.Tasks[ti]
 			tr := runs[ti]
@@ -464,9 +473,12 @@ func runC18(p *plan.Plan, keepLog bool, soloOnly bool) (*plan.Result, *C18Stats)
 				tr.env.Resolve(st, &a)
 				sHotSteps = sHotSteps[:0]
 				sSyncSteps = sSyncSteps[:0]
-				beginOp(soloOpCap)
+				beginOp(c18OpCap)
+				setWallCap(4 * time.Second)
 				o := Exec(def, &a)
+				setWallCap(0)
 				n := opSteps()
+				total += n
 				if o.Deadlock && !wasUnwound {
 					// run alone, the call waits for a lock nobody holds any more: an
 					// earlier call (of this process) left it locked
@@ -474,7 +486,7 @@ func runC18(p *plan.Plan, keepLog bool, soloOnly bool) (*plan.Result, *C18Stats)
 						Detail: fmt.Sprintf("task %d step %d %s, executed alone, waits for a lock that was left held by an earlier operation of this process", ti, si, st.Op)})
 					return true, true
 				}
-				if o.Hang || local+n > soloRunCap {
+				if o.Hang || total > c18RunCap || time.Since(soloStart) > 12*time.Second {
 					return false, false
 				}
 				tr.base[si] = stepBase{out: o, steps: n, start: local, hot: append([]uint64(nil), sHotSteps...), sync: append([]uint64(nil), sSyncSteps...)}
@@ -510,6 +522,10 @@ func runC18(p *plan.Plan, keepLog bool, soloOnly bool) (*plan.Result, *C18Stats)
 		sJoin = &wg
 		defer func() { sJoin = nil }()
 		setMode(modeSched)
+		if !haveBase {
+			setWallCap(20 * time.Second)
+			defer setWallCap(0)
+		}
 		for ti := range p.Tasks {
 			wg.Add(1)
 			go func(ti int) {
@@ -532,7 +548,7 @@ func runC18(p *plan.Plan, keepLog bool, soloOnly bool) (*plan.Result, *C18Stats)
 					if haveBase {
 						setTaskBudget(ti, 20*tr.base[si].steps+2_000_000)
 					} else {
-						setTaskBudget(ti, soloOpCap)
+						setTaskBudget(ti, c18OpCap)
 					}
 					o := Exec(def, &a)
 					setInOp(ti, -1)
